@@ -36,7 +36,11 @@ LEVEL.update({
 LEVEL.update({
  "C04": ("Codec agreement is decided as table/sequence equality extracted from the program: the six integer<->enum tables are mutually inverse, match the RFC code points and carry unlisted values through; the writer's and reader's field sequences agree per RDATA variant, for the header bit layout, question and RR prefix, and with an embedded RFC 1035/2782/3596 table; RDLENGTH back-patching, the 14-bit bound on memoised offsets, pointer emission and section counts have the required shapes. Equality decode(encode(m)) == m over all message values is declined.", "3/C04"),
 })
+LEVEL.update({
+ "C03": ("Every panic-capable site (bounds assertions, slice ranges, arithmetic assertions, unwraps) in the 26 functions reachable from Message::from_octets is enumerated from MIR and discharged by a linear-constraint argument over dominating comparisons on the same cursor, range-loop indices, a magnitude rule for additions, or a checked structural justification; every decoder loop consumes input; the only recursion is the compression pointer with a strictly decreasing 14-bit offset; errors carry the header ID; the strictness guards (63/192/255/RDLENGTH) dominate acceptance; the reader layout equals the RFC table. Agreement with a reference decoder and the stack-overflow clause are declined (see DESIGN.md C03.4).", "3/C03"),
+})
 TECH = {
+ "C03": "custom MIR rules: panic-site enumeration + discharge by linear constraints over dominating edge conditions (LEN-AI), loop progress, recursion measure, who-constructs, reader SEQ vs RFC table",
  "C04": "custom MIR rules: ARM-TABLE extraction and inversion, SEQ (ordered call sequence per match arm) reader/writer comparison against an RFC layout table, guard dominance with constant bounds",
  "C09": "custom MIR rules: arm tables from edge facts, ORIGIN of stored header fields and sent slices, who-calls, loop exit-edge analysis across spawned closures",
  "C14": "custom MIR rules: typestate via CUT-REACH on feasible paths (scrutinee-consistent reachability), arm tables, ORIGIN of insert arguments",
